@@ -679,21 +679,21 @@ func squash(s string) string { return strings.Join(strings.Fields(s), " ") }
 
 var gobLeafWriteFrame = map[string]string{
 	"var ( mm = make(map[string][]byte) err error hasData bool )": "decl",
-	"if !hasData { return []byte{}, nil }":                         "nodata-empty",
-	"bb := bytes.Buffer{}":                                         "buffer",
-	"g := gob.NewEncoder(&bb)":                                     "encoder",
-	"if err := g.Encode(mm); err != nil { return nil, err }":       "encode-mm",
-	"return bb.Bytes(), nil":                                       "return-bytes",
+	"if !hasData { return []byte{}, nil }":                        "nodata-empty",
+	"bb := bytes.Buffer{}":                                        "buffer",
+	"g := gob.NewEncoder(&bb)":                                    "encoder",
+	"if err := g.Encode(mm); err != nil { return nil, err }":      "encode-mm",
+	"return bb.Bytes(), nil":                                      "return-bytes",
 }
 
 var gobLeafReadFrame = map[string]string{
-	"if len(data) == 0 { return nil }":                       "empty-nil",
-	"mm := make(map[string][]byte)":                          "make-mm",
-	"g := gob.NewDecoder(bytes.NewReader(data))":             "decoder",
-	"if err := g.Decode(&mm); err != nil { return err }":     "decode-mm",
-	"mm, err := gobDecodeObjectAsMap(data)":                  "decode-as-map",
-	"if err != nil { return err }":                           "err-return",
-	"return nil":                                             "return-nil",
+	"if len(data) == 0 { return nil }":                   "empty-nil",
+	"mm := make(map[string][]byte)":                      "make-mm",
+	"g := gob.NewDecoder(bytes.NewReader(data))":         "decoder",
+	"if err := g.Decode(&mm); err != nil { return err }": "decode-mm",
+	"mm, err := gobDecodeObjectAsMap(data)":              "decode-as-map",
+	"if err != nil { return err }":                       "err-return",
+	"return nil":                                         "return-nil",
 }
 
 func (t *T) gobLeafMethod(recv, meth string) *ast.FuncDecl {
